@@ -23,13 +23,17 @@ func (g *GenericPlanner) WrapProcess(ctx *shared.PlannerContext,
 	go func() {
 		onErr := func(err error) {
 			out <- []shared.LogEntry{{Err: err}}
+		}
+		defer close(out)
+		// however the stage ends (error, panic, end of input) the upstream is drained: its sender never stays blocked
+		defer func() {
 			go func() {
 				for range _in {
 				}
 			}()
-		}
-		defer close(out)
-		defer func() { shared.TamePanic(out) }()
+		}()
+		// recover() only works when TamePanic itself is the deferred function
+		defer shared.TamePanic(out)
 		for entries := range _in {
 			for i := range entries {
 				err := ops.OnEntry(&entries[i])
